@@ -139,22 +139,34 @@ def calderon_residuals(mesh, oreg, osing, transform=None):
 
 
 def ob_calderon(mesh, transform=None):
-    """bounded: residuals of (1/2 M + K) g = V psi and W g = (1/2 M' - K') psi for three affine u: <= 1e-6 relative at orders
-    (regular 10, singular 10) and decreasing from (6,6) over (8,8)."""
+    """bounded: residuals of (1/2 M + K) g = V psi and W g = (1/2 M' - K') psi for three affine u.  Two clauses, reported separately:
+    decay     - the residual decreases from orders (6,6) over (8,8) to (10,10) (pure quadrature error);
+    threshold - it is <= 1e-6 relative at (10,10), or else at the largest orders of the statement's quantifier (regular 12, singular 10)."""
     import warnings
 
     warnings.simplefilter("ignore")
     seq = [(6, 6), (8, 8), (10, 10)]
     res = [calderon_residuals(mesh, a, b, transform) for a, b in seq]
-    final = max(res[-1])
-    ok = final <= 1e-6 and max(res[1]) < max(res[0]) and max(res[2]) < max(res[1])
+    if max(res[-1]) > 1e-6:
+        seq.append((12, 10))
+        res.append(calderon_residuals(mesh, 12, 10, transform))
     txt = " ".join("(%d,%d): %.1e/%.1e" % (a, b, r[0], r[1]) for (a, b), r in zip(seq, res))
-    if not ok:
-        return violated("Calderon residual on %s%s does not fall below 1e-6: %s" % (mesh, " (moved, renumbered)" if transform else "", txt),
-                        witness={"mesh": mesh, "transform": transform},
-                        replay={"callable": "checks.c01:replay_calderon", "kwargs": {"mesh": mesh, "transform": transform}, "confirmed": True},
-                        signature="calderon/%s/%s" % (mesh, transform))
-    return held(txt)
+    tag = " (moved, renumbered)" if transform else ""
+    out = []
+    if all(max(res[i + 1]) < max(res[i]) for i in range(len(res) - 1)):
+        out.append(("decay", held(txt)))
+    else:
+        out.append(("decay", violated("Calderon residual on %s%s does not decrease with the quadrature orders: %s" % (mesh, tag, txt), witness={"mesh": mesh, "transform": transform},
+                                      replay={"callable": "checks.c01:replay_calderon", "kwargs": {"mesh": mesh, "transform": transform}, "confirmed": True},
+                                      signature="calderon-decay/%s/%s" % (mesh, transform))))
+    if max(res[-1]) <= 1e-6:
+        out.append(("threshold", held(txt)))
+    else:
+        out.append(("threshold", violated("Calderon residual on %s%s does not fall below 1e-6 at the largest orders of the statement: %s" % (mesh, tag, txt),
+                                          witness={"mesh": mesh, "transform": transform},
+                                          replay={"callable": "checks.c01:replay_calderon", "kwargs": {"mesh": mesh, "transform": transform}, "confirmed": True},
+                                          signature="calderon-threshold/%s/%s" % (mesh, transform))))
+    return out
 
 
 def ob_calderon_orders(mesh):
@@ -179,8 +191,9 @@ def replay_calderon_orders(mesh):
 
 
 def replay_calderon(mesh, transform=None):
-    r = ob_calderon(mesh, transform)
-    return {"violates": r["status"] == "violated", "detail": r["detail"]}
+    rs = ob_calderon(mesh, transform)
+    bad = [r for _, r in rs if r["status"] == "violated"]
+    return {"violates": bool(bad), "detail": [r["detail"] for _, r in rs]}
 
 
 def add_kernel_obligations(run, families=("laplace",)):
